@@ -21,6 +21,16 @@
 
 typedef double R;
 typedef double Real;
+/* Rational for the twins of spxlpbase_rational.hpp: LPFreadColName never touches the number type; LPFreadInfinity only constructs
+ * it from an int or from the double `infinity` and multiplies two such values (+-1 times infinity): a double wrapper is exact there. */
+struct RationalStub
+{
+   double v;
+   RationalStub() : v(0.0) {}
+   RationalStub(int i) : v(i) {}
+   RationalStub(double d) : v(d) {}
+   RationalStub& operator*=(const RationalStub& o) { v = v * o.v; return *this; }
+};
 static const Real infinity = SOPLEX_DEFAULT_INFINITY;
 
 /* ---- dropped by extraction: logging ------------------------------------------------------------------ */
@@ -31,7 +41,8 @@ struct SPxOut
    static void debug(const void*, const char*, double) {}
    static void debug(const void*, const char*, const char*, int) {}
 };
-#define SPX_MSG_WARNING(spxout, x)
+/* (the real macro expands to a braced block; the rational LPFreadColName relies on that: `if(..) SPX_MSG_WARNING(..) else {..}`) */
+#define SPX_MSG_WARNING(spxout, x) {}
 
 /* ---- ghosts shared with contract.c ------------------------------------------------------------------- */
 extern "C" {
@@ -219,21 +230,44 @@ static inline bool LPFhasKeyword(const char* incremented, const char* keyword)
    __CPROVER_assert(incremented == *gpp_pos, "++pos denotes the object pos refers to");
    return LPFhasKeyword(*gpp_pos, keyword);
 }
+#ifdef RAT_TWIN
+/* the twin in spxlpbase_rational.hpp: Rational sense = +-1; ...; sense *= Rational(infinity); return sense; */
+typedef RationalStub Rational;
+extern "C" double LPFreadInfinity_rat(char*& pos)
+{
+   struct Body
+   {
+      static Rational run(char*& pos)
+      {
+#include "LPFreadInfinity_rat.inc"
+      }
+   };
+   return Body::run(pos).v;
+}
+#else
 extern "C" R LPFreadInfinity(char*& pos)
 {
 #include "LPFreadInfinity.inc"
 }
+#endif
 extern "C" double w_readInfinity(char* line, int n, int off, int* off_out)
 {
    char* p = line + off;
    gp_line = line; gpp_pos = &p;
+#ifdef RAT_TWIN
+   double r = LPFreadInfinity_rat(p);
+#else
    R r = LPFreadInfinity(p);
+#endif
    *off_out = (int)(p - line);
    return r;
 }
 #endif
 
-/* ---- LPFreadValue ------------------------------------------------------------------------------------ */
+/* ---- LPFreadValue ------------------------------------------------------------------------------------
+ * NOT REGISTERED as an instance (see gen_unit_json.py and props/C13.json "not_covered"): CBMC cannot discharge it within budget.
+ * The wrapper and the contract are kept so that the attempt can be resumed (python3 tools/unitrun.py needs the instance
+ * re-enabled in gen_unit_json.py). */
 #ifdef INST_readValue
 extern "C" R LPFreadValue(char*& pos, SPxOut* spxout)
 {
@@ -292,11 +326,22 @@ template <class T> struct LPColSetBase
 #endif
 
 #ifdef INST_readColName
+#ifdef RAT_TWIN
+/* the twin in spxlpbase_rational.hpp: not a template, same parameter list with R = Rational (the number type is never touched) */
+typedef RationalStub Rational;
+extern "C" int LPFreadColName(char*& pos, NameSet* colnames, LPColSetBase<Rational>& colset,
+                              const LPColBase<Rational>* emptycol, SPxOut* spxout)
+{
+#include "LPFreadColName_rat.inc"
+}
+#define R Rational
+#else
 extern "C" int LPFreadColName(char*& pos, NameSet* colnames, LPColSetBase<R>& colset,
                               const LPColBase<R>* emptycol, SPxOut* spxout)
 {
 #include "LPFreadColName.inc"
 }
+#endif
 extern "C" int w_readColName(char* line, int n, int off, int have_empty, int* off_out, int* tl_out, int* end_out)
 {
    VIN("n", n); VIN("len", g_len); VIN("off", off); VIN("have_empty", have_empty); VIN_ARR8("text", line + off, n - off);
